@@ -4,6 +4,10 @@ Clause 2 (server CORS) : `wwh cors` drives the real router of an SSO-server inst
                          compared with Model/Cors.v; the monitor below reads the property off the response headers.
 Clause 1 (proxy)       : histories on the session machine against a server and a proxy sharing one store; the
                          monitor (lib/monitors.py c16) checks that the proxy issues only store reads.
+                         "passing a redirect confined to its own ingress": `wwh spxredirect` sends hostile redirect
+                         parameters (configuration-derived near misses, nearmiss.go) to /oauth2/login and /oauth2/logout of
+                         real SSO-proxy handlers behind the real router; model Model/Redirect.v (spx_login_handover),
+                         theorems c16_proxy_*_handover*, monitor lib/props/_spx.py.
 Clause 3 (server)      : cookie Domain and the wildcard route are observed by `wwh cors` per configured domain;
                          the wildcard route is also part of the machine histories (kind p with sso on).
 """
@@ -12,7 +16,7 @@ import json
 import re
 
 from lib import vf
-from lib.props import _mach
+from lib.props import _mach, _spx
 
 # what a browser can put into an Origin header (RFC 6454 serialisation of a tuple origin):
 # lower-case scheme "://" lower-case host (reg-name, IPv4 or bracketed IPv6) [":" port]
@@ -286,6 +290,11 @@ def run(ctx):
         ctx.broken.append({"kind": "harness", "name": "ssoproxy control: the store wrapper saw no server write / no proxy read (observation point blind)", "first": pst})
     nt += pnt
 
+    # clause 1, "passing a redirect confined to its own ingress": hostile redirect parameters through the real router and
+    # the real Login/Logout handlers of several SSO-proxy deployments (model: Model/Redirect.v; monitor: lib/props/_spx.py)
+    xst, xnt = _spx.run(ctx, "C16")
+    nt += xnt
+
     # clause 1 and the wildcard route on the session machine (server and proxy share one wrapped store)
     _mach.run_modes(ctx, ["history"], ["c16"])
     mrule = ctx.rule
@@ -308,15 +317,16 @@ def run(ctx):
                 "random mutations of near-miss origins and random byte strings 0x01..0x7f; distinct_nontrivial = distinct (domain, browser-producible or granted origin, granted?) "
                 "+ distinct proxy request shapes + distinct machine histories. ssoproxy: random histories of proxy requests (every endpoint x method x redirect/locale "
                 "query x cookie class) interleaved with writing server requests and clock advances, on one Redis store. machine-sso: machine scenarios with sso on, "
-                "mostly proxy requests, faults, cancellations, proxy steps interleaved with a writing server request. machine: " + ctx.rule)
+                "mostly proxy requests, faults, cancellations, proxy steps interleaved with a writing server request. " + _spx.RULE + ". machine: " + ctx.rule)
     ctx.assumptions += [
         "Origin, method and domain strings are ASCII (bytes < 0x80): Go's strings.ToLower is modelled by ASCII lower-casing; "
         "for non-ASCII input rs/cors applies Unicode lower-casing (e.g. U+212A KELVIN SIGN -> k), which a browser cannot put into an Origin header",
         "requests are handed to the router as http.Request values (no HTTP/1.1 wire parsing): header values that net/http's server would reject are a superset",
         "router.go is modelled for one ingress path prefix; all its patterns are static, so chi's tree matching is modelled as string comparison on the route path "
         "(URL.RawPath if set, else URL.Path, as computed by net/url for the request target); the driver reads that path off the real request",
-        "the SSO-proxy handlers other than Wildcard (Login, Logout, callbacks, session forwards) have no Coq model: they are checked by the monitor on the real router only",
+        "the SSO-proxy handlers other than Wildcard, Login and Logout (callbacks, session forwards) have no Coq model: they are checked by the monitor on the real router only; "
+        "Login/Logout are modelled for the redirect they hand over (Model/Redirect.v spx_*_handover), not for the acr/locale/prompt parameters",
         "cookie Domain is observed on the cookies set or cleared by the server's login and logout endpoints (monitor only)",
         "SSO domains outside DNS-name syntax (containing '*', ':' ...) are driven through the correspondence but are outside the property's quantifier; "
         "config.SSO.Validate accepts them (see report)",
-    ]
+    ] + _spx.ASSUME
